@@ -26,9 +26,29 @@ PROP = "C16"
 
 # --------------------------------------------------------------------------- columns and SQL literals
 COLTYPE = {"s": "str", "s2": "str", "fs": "str", "a": "strarr", "x": "float", "xi": "int", "ds": "str", "df": "str", "ts": "str",
-           "dd": "date", "tt": "timestamp", "lat": "float", "lng": "float", "e": "floatarr", "pc": "str", "em": "str"}
-SQLTYPE = {"duckdb": {"str": "VARCHAR", "strarr": "VARCHAR[]", "float": "DOUBLE", "int": "BIGINT", "date": "DATE", "timestamp": "TIMESTAMP", "floatarr": "FLOAT[3]"},
+           "dd": "date", "tt": "timestamp", "lat": "float", "lng": "float", "e": "floatarr", "pc": "str", "em": "str",
+           # audit c16: a column name that needs quoting (copy of s2), latitude/longitude inside a STRUCT and inside an array, a timestamp string in a non-ISO format
+           "sur name": "str", "ll": "llstruct", "la": "dblarr", "tf": "str"}
+SQLTYPE = {"duckdb": {"str": "VARCHAR", "strarr": "VARCHAR[]", "float": "DOUBLE", "int": "BIGINT", "date": "DATE", "timestamp": "TIMESTAMP", "floatarr": "FLOAT[3]",
+                      "llstruct": "STRUCT(lat DOUBLE, lng DOUBLE)", "dblarr": "DOUBLE[]"},
            "sqlite": {"str": "TEXT", "float": "REAL", "int": "INTEGER"}}
+TF_FORMAT = "%d/%m/%Y %H:%M:%S"
+
+
+def _part(i):
+    return lambda p, k: None if p[("ll", "la")[i // 2]][k] is None else p[("ll", "la")[i // 2]][k][i % 2]
+
+
+# column expressions whose BASE is not a plain column: physical columns they read, and their value on one side of a pair
+EXPR_BASE = {
+    "s || s2": (["s", "s2"], lambda p, k: None if p["s"][k] is None or p["s2"][k] is None else p["s"][k] + p["s2"][k]),
+    "upper(s)": (["s"], lambda p, k: None if p["s"][k] is None else p["s"][k].upper()),
+    "ll['lat']": (["ll"], _part(0)), "ll['lng']": (["ll"], _part(1)), "la[1]": (["la"], _part(2)), "la[2]": (["la"], _part(3)),
+}
+
+
+def phys_cols(base: str) -> list:
+    return EXPR_BASE[base][0] if base in EXPR_BASE else [base]
 EPOCH = dt.datetime(1970, 1, 1)
 
 
@@ -49,25 +69,40 @@ def sql_lit(v, typ: str) -> str:
         return "[" + ", ".join(sql_lit(x, "str") for x in v) + "]::VARCHAR[]"
     if typ == "floatarr":
         return "[" + ", ".join(repr(float(x)) for x in v) + "]::FLOAT[3]"
+    if typ == "llstruct":
+        return "{'lat': " + sql_lit(v[0], "float") + ", 'lng': " + sql_lit(v[1], "float") + "}::STRUCT(lat DOUBLE, lng DOUBLE)"
+    if typ == "dblarr":
+        return "[" + ", ".join(sql_lit(x, "float") for x in v) + "]::DOUBLE[]"
     raise ValueError(typ)
 
 
 # --------------------------------------------------------------------------- level specs -> real creators
-def build_level(spec, dialect: str):
-    """spec = [ClassName, kwargs] | ['And'|'Or', [specs]] | ['Not', spec] | {'sql_condition': ...}; a FRESH real creator."""
+def build_level(spec, dialect: str, raw_ok: bool = False, ce_cache: dict | None = None):
+    """spec = [ClassName, kwargs] | ['And'|'Or', [specs]] | ['Not', spec] | {'sql_condition': ...}; a FRESH real creator.
+    A dict with '__raw' stays a plain dict when it sits inside And / Or / Not (they accept dicts).  With `ce_cache`, equal column
+    specs share ONE ColumnExpression object (a user who builds `col = ColumnExpression(..)` once and passes it to several levels)."""
     from splink.internals import comparison_level_library as cll
+    from splink.internals.column_expression import ColumnExpression
 
     if isinstance(spec, dict):
-        return cll.CustomLevel(**spec)
+        d = {k: v for k, v in spec.items() if not k.startswith("__")}
+        return d if (raw_ok and spec.get("__raw")) else cll.CustomLevel(**d)
     name, arg = spec
     if name in ("And", "Or"):
-        return getattr(cll, name)(*[build_level(x, dialect) for x in arg])
+        return getattr(cll, name)(*[build_level(x, dialect, True, ce_cache) for x in arg])
     if name == "Not":
-        return cll.Not(build_level(arg, dialect))
+        return cll.Not(build_level(arg, dialect, True, ce_cache))
     kw = dict(arg)
     for k in ("col_name", "col_name_1", "col_name_2", "lat_col", "long_col"):
         if k in kw:
-            kw[k] = tlevels._ce(kw[k])
+            if ce_cache is None:
+                kw[k] = tlevels._ce(kw[k])
+            else:
+                key = json.dumps(kw[k])
+                if key not in ce_cache:
+                    ce = tlevels._ce(kw[k])
+                    ce_cache[key] = ColumnExpression(ce) if isinstance(ce, str) else ce
+                kw[k] = ce_cache[key]
     if kw.get("distance_function_name") == "@jw":
         kw["distance_function_name"] = tlevels.JW_NAME[dialect]
     return getattr(cll, name)(**kw)
@@ -95,8 +130,25 @@ def level_specs(scn: str) -> list:
         out += [["And", [lev1, ex2]], ["Or", [ex, ex2]], ["Not", ex], ["Not", nl], ["Not", ["Not", lev1]], ["And", [nl, L("NullLevel", col_name="s2")]], ["Or", [nl, L("NullLevel", col_name="s2")]],
                 ["And", [lev1, ["Not", ex], ["Or", [ex2, L("NullLevel", col_name="s2")]]]], ["Not", ["And", [lev1, ex2]]], ["Or", [["Not", lev1], ["Not", ex2]]],
                 {"sql_condition": "substr(s_l, 1, 1) = substr(s_r, 1, 1)"}]
+        # ---- audit c16: argument boundaries and forms
+        first = "substr(s_l, 1, 1) = substr(s_r, 1, 1)"
+        out += [L("LiteralMatchLevel", col_name="s", literal_value="", literal_datatype="string"),  # the empty string as the literal
+                L("LiteralMatchLevel", col_name="s", literal_value="o'brien", literal_datatype="string", side_of_comparison="left"),  # a literal with an apostrophe
+                L("ExactMatchLevel", col_name=["s", "lower", ["substr", 2, 3]]), L("ExactMatchLevel", col_name="s || s2"), L("ExactMatchLevel", col_name=["upper(s)", ["substr", 1, 2]]),
+                L("ExactMatchLevel", col_name="sur name"), L("ColumnsReversedLevel", col_name_1="s", col_name_2="sur name", symmetrical=True),
+                L("NullLevel", col_name=["s", ["nullif", "ab"]]), L("NullLevel", col_name=["s", ["nullif", "o'brien"]]), L("LevenshteinLevel", col_name="s", distance_threshold=1.5),
+                # thresholds with 7 decimals on either side of a constructible score (jw(martha, marhta) = 0.96111.., jaro = 0.94444..)
+                L("JaroWinklerLevel", col_name="s", distance_threshold=0.9611111), L("JaroWinklerLevel", col_name="s", distance_threshold=0.9611112),
+                L("JaroLevel", col_name="s", distance_threshold=0.9444444), L("JaroLevel", col_name="s", distance_threshold=0.9444445),
+                L("DistanceFunctionLevel", col_name="s", distance_function_name="@jw", distance_threshold=0.9),  # higher_is_more_similar left at its default
+                {"sql_condition": first, "base_dialect_str": "duckdb"}, {"sql_condition": first, "base_dialect_str": "sqlite", "label_for_charts": "first letter"},  # translated by sqlglot on the other engine
+                ["Or", [{"sql_condition": first, "__raw": True}, ex2]], ["Not", {"sql_condition": first, "__raw": True}]]  # plain dicts inside compositions
         if scn == "strne":
             out = [L("JaccardLevel", col_name="s", distance_threshold=t) for t in (0, 0.5, 0.6, 0.9, 1)] + [L("NullLevel", col_name=["s", ["regex", "^[a-m]+"]]), L("ExactMatchLevel", col_name=["s", ["regex", "^[a-m]+"]])]
+            # audit c16: a capture group other than 0, an operation after the extraction, first / last array element
+            out += [L("ExactMatchLevel", col_name=["s", ["regex", "^([a-m]*)([^a-m].*)$", 2]]), L("NullLevel", col_name=["s", ["regex", "^([a-m]*)([^a-m].*)$", 2]]),
+                    L("ExactMatchLevel", col_name=["s", ["regex", "^.(.)", 1], "lower"]),
+                    L("ExactMatchLevel", col_name=["a", ["elem", "last"]]), L("LevenshteinLevel", col_name=["a", ["elem", "first"]], distance_threshold=1)]
         return out
     if scn == "num":
         out = [L("NullLevel", col_name="x"), L("ExactMatchLevel", col_name="x"), L("ExactMatchLevel", col_name="xi"),
@@ -106,6 +158,13 @@ def level_specs(scn: str) -> list:
         # integer column: SQLite/Postgres divide integers (fixed in c25435e3, regression corpus/C16/sqlite_percentage_integer_division.json)
         out += [L("PercentageDifferenceLevel", col_name="xi", percentage_threshold=t) for t in (0.1, 0.5)]
         out += [["Not", L("AbsoluteDifferenceLevel", col_name="x", difference_threshold=1)], ["And", [L("AbsoluteDifferenceLevel", col_name="x", difference_threshold=10), ["Not", L("ExactMatchLevel", col_name="x")]]]]
+        # ---- audit c16: the literal given as a number / as zero, thresholds printed in exponent notation, thresholds with 7 decimals
+        out += [L("LiteralMatchLevel", col_name="xi", literal_value=10, literal_datatype="int", side_of_comparison="right"), L("LiteralMatchLevel", col_name="xi", literal_value="0", literal_datatype="int"),
+                L("LiteralMatchLevel", col_name="x", literal_value=0.0, literal_datatype="float", side_of_comparison="left"), L("LiteralMatchLevel", col_name="x", literal_value="-10", literal_datatype="float"),
+                L("AbsoluteDifferenceLevel", col_name="x", difference_threshold=2.0 ** -20), L("AbsoluteDifferenceLevel", col_name="x", difference_threshold=1e16),
+                L("AbsoluteDifferenceLevel", col_name="x", difference_threshold=0.1234567), L("AbsoluteDifferenceLevel", col_name="xi", difference_threshold=2.0 ** -20),
+                L("PercentageDifferenceLevel", col_name="x", percentage_threshold=0.090909), L("PercentageDifferenceLevel", col_name="x", percentage_threshold=0.0909091),
+                L("PercentageDifferenceLevel", col_name="xi", percentage_threshold=0.0909091), L("PercentageDifferenceLevel", col_name="xi", percentage_threshold=1)]
         return out
     if scn == "date":
         out = [L("NullLevel", col_name="ds"), L("ExactMatchLevel", col_name="ds"), L("ExactMatchLevel", col_name="dd")]
@@ -116,24 +175,44 @@ def level_specs(scn: str) -> list:
         for t, m in ((1, "second"), (90, "minute"), (1, "day"), (1, "month"), (1, "year")):
             out.append(L("AbsoluteTimeDifferenceLevel", col_name="ts", input_is_string=True, threshold=t, metric=m))
             out.append(L("AbsoluteTimeDifferenceLevel", col_name="tt", input_is_string=False, threshold=t, metric=m))
+        # ---- audit c16: date literal, cast / parse operations used directly, a timestamp format, fractional / zero / huge thresholds
+        out += [L("LiteralMatchLevel", col_name="dd", literal_value="2000-01-01", literal_datatype="date"), L("LiteralMatchLevel", col_name="dd", literal_value="2000-02-29", literal_datatype="date", side_of_comparison="left"),
+                L("ExactMatchLevel", col_name=["dd", "cast_to_string", ["substr", 1, 4]]), L("NullLevel", col_name=["ds", ["try_parse_date", None]]), L("NullLevel", col_name=["df", ["try_parse_date", "%d/%m/%Y"]]),
+                L("ExactMatchLevel", col_name=["df", ["try_parse_date", "%d/%m/%Y"]]), L("NullLevel", col_name=["tf", ["try_parse_timestamp", TF_FORMAT]]),
+                L("AbsoluteTimeDifferenceLevel", col_name="tf", input_is_string=True, threshold=1, metric="second", datetime_format=TF_FORMAT),
+                L("AbsoluteTimeDifferenceLevel", col_name="tf", input_is_string=True, threshold=0, metric="hour", datetime_format=TF_FORMAT),
+                L("AbsoluteTimeDifferenceLevel", col_name="tf", input_is_string=True, threshold=1e-05, metric="day", datetime_format=TF_FORMAT),  # 0.864 s, printed from a float product
+                L("AbsoluteDateDifferenceLevel", col_name="ds", input_is_string=True, threshold=0.5, metric="month"), L("AbsoluteDateDifferenceLevel", col_name="dd", input_is_string=False, threshold=100, metric="year"),
+                L("AbsoluteDateDifferenceLevel", col_name="dd", input_is_string=False, threshold=0, metric="year")]
         return out
     if scn == "arr":
         out = [L("NullLevel", col_name="a")] + [L("ArrayIntersectLevel", col_name="a", min_intersection=n) for n in (0, 1, 2, 3)] + [L("ArrayIntersectLevel", col_name="a")]
         out += [L("ArraySubsetLevel", col_name="a"), L("ArraySubsetLevel", col_name="a", empty_is_subset=True)]
         out += [L("PairwiseStringDistanceFunctionLevel", col_name="a", distance_function_name=f, distance_threshold=t)
                 for f, t in (("levenshtein", 0), ("levenshtein", 1), ("levenshtein", 2), ("damerau_levenshtein", 1), ("jaro", 0.9), ("jaro_winkler", 0.88), ("jaro_winkler", 1))]
+        # ---- audit c16: whole-array equality, first / last element, fractional distance, similarity threshold 0
+        out += [L("ExactMatchLevel", col_name="a"), L("ExactMatchLevel", col_name=["a", ["elem", "first"]]), L("NullLevel", col_name=["a", ["elem", "last"]]),
+                L("JaroWinklerLevel", col_name=["a", ["elem", "last"]], distance_threshold=0.88),
+                L("PairwiseStringDistanceFunctionLevel", col_name="a", distance_function_name="levenshtein", distance_threshold=1.5),
+                L("PairwiseStringDistanceFunctionLevel", col_name="a", distance_function_name="jaro", distance_threshold=0)]
         return out
     if scn == "km":
         out = [L("NullLevel", col_name="lat"), ["Or", [L("NullLevel", col_name="lat"), L("NullLevel", col_name="lng")]]]
         out += [L("DistanceInKMLevel", lat_col="lat", long_col="lng", km_threshold=t, not_null=nn) for nn in (False, True) for t in (0, 0.01, 1, 10, 343.5, 5570, 10007, 20015, 20016, 100000)]
+        # ---- audit c16: latitude / longitude as a struct field and as an array element (the forms the docstring names)
+        out += [L("DistanceInKMLevel", lat_col="ll['lat']", long_col="ll['lng']", km_threshold=343.5, __engines=["duckdb"]),
+                L("DistanceInKMLevel", lat_col="la[1]", long_col="la[2]", km_threshold=10007, not_null=True, __engines=["duckdb"])]
         return out
     if scn == "cos":
-        return [L("NullLevel", col_name="e")] + [L("CosineSimilarityLevel", col_name="e", similarity_threshold=t) for t in (0, 0.5, 0.7, 0.9, 1)]
+        return [L("NullLevel", col_name="e")] + [L("CosineSimilarityLevel", col_name="e", similarity_threshold=t) for t in (0, 0.5, 0.7, 0.9, 1, 0.9599001, 0.9600999)]  # cos([3,4,0],[4,3,0]) = 0.96
     if scn == "misc":
         pcre = tlevels_regex()
         return [L("NullLevel", col_name="pc", valid_string_pattern=pcre["valid"]), L("NullLevel", col_name="pc"), L("ExactMatchLevel", col_name=["pc", ["regex", pcre["sector"]]]),
                 L("ExactMatchLevel", col_name=["pc", ["regex", pcre["district"]]]), L("ExactMatchLevel", col_name=["pc", ["regex", pcre["area"]]]),
-                L("ExactMatchLevel", col_name=["em", ["regex", "^[^@]+"]]), L("JaroWinklerLevel", col_name=["em", ["regex", "^[^@]+"]], distance_threshold=0.88)]
+                L("ExactMatchLevel", col_name=["em", ["regex", "^[^@]+"]]), L("JaroWinklerLevel", col_name=["em", ["regex", "^[^@]+"]], distance_threshold=0.88),
+                # audit c16: capture group 1 (the e-mail domain), a validity pattern on another column, lower() before the extraction
+                L("ExactMatchLevel", col_name=["em", ["regex", "@([^@]+)$", 1]]), L("NullLevel", col_name="em", valid_string_pattern="^[^@]+@[^@]+$"),
+                L("ExactMatchLevel", col_name=["pc", "lower", ["regex", "^[a-z]{1,2}"]])]
     raise ValueError(scn)
 
 
@@ -144,15 +223,12 @@ def tlevels_regex():
 
 
 SCN_ENGINES = {"str": ["duckdb", "sqlite"], "strne": ["duckdb"], "num": ["duckdb", "sqlite"], "date": ["duckdb"], "arr": ["duckdb"], "km": ["duckdb", "sqlite"], "cos": ["duckdb"], "misc": ["duckdb"]}
-SCN_COLS = {"str": ["s", "s2", "fs"], "strne": ["s", "s2", "fs", "a"], "num": ["x", "xi"], "date": ["ds", "dd", "df", "ts", "tt"], "arr": ["a"], "km": ["lat", "lng"], "cos": ["e"], "misc": ["pc", "em", "lat", "lng"]}
+SCN_COLS = {"str": ["s", "s2", "fs", "sur name"], "strne": ["s", "s2", "fs", "a", "sur name"], "num": ["x", "xi"], "date": ["ds", "dd", "df", "ts", "tt", "tf"], "arr": ["a"], "km": ["lat", "lng", "ll", "la"], "cos": ["e"],
+            "misc": ["pc", "em", "lat", "lng"]}
 
 
 def comparison_scenario(spec) -> str | None:
-    cols = set()
-    kw = spec["kw"]
-    for k, v in kw.items():
-        if k.endswith("col_name") or k in ("lat_col", "long_col"):
-            cols.add(v if isinstance(v, str) else v[0])
+    cols = comparison_cols(spec)
     if spec["creator"] == "CustomComparison":
         return "str"
     for scn in ("str", "arr", "strne", "num", "date", "km", "cos", "misc"):
@@ -164,15 +240,20 @@ def comparison_scenario(spec) -> str | None:
 
 
 # --------------------------------------------------------------------------- value pairs
-STRS = [None, "", "a", "ab", "ba", "abc", "abd", "ca", "martha", "marhta", "Martha", "dwayne", "duane", "dixon", "dicksonx", "jones", "johnson", "kitten", "sitting", "aaaa", "aaab", "xyz"]
-DATES = [None, "2000-01-01", "2000-01-02", "2000-01-11", "2000-01-31", "2000-02-01", "2000-03-01", "2000-12-31", "2001-01-01", "2004-01-01", "2010-01-01", "1999-12-31", "1990-06-15"]
+STRS = [None, "", "a", "ab", "ba", "abc", "abd", "ca", "martha", "marhta", "Martha", "dwayne", "duane", "dixon", "dicksonx", "jones", "johnson", "kitten", "sitting", "aaaa", "aaab", "xyz",
+        "o'brien"]  # audit c16: an apostrophe in the data (and in a literal)
+DATES = [None, "2000-01-01", "2000-01-02", "2000-01-11", "2000-01-31", "2000-02-01", "2000-03-01", "2000-12-31", "2001-01-01", "2004-01-01", "2010-01-01", "1999-12-31", "1990-06-15",
+         "1969-12-31", "1900-01-01", "2000-02-29"]  # audit c16: before the Unix epoch (negative epoch seconds), a leap day
 BAD_DATES = ["2000-13-01", "abc", "", "2000-02-30"]
 TIMES = ["00:00:00", "00:00:01", "01:30:00", "12:00:00", "10:30:00"]
-ARRS = [None, [], ["a"], ["a", "b"], ["b", "a"], ["a", "b", "c"], ["c"], ["abc"], ["abd", "xyz"], ["martha"], ["marhta", "jones"], ["a", "a"], ["a", "a", "b"], ["kitten", "c"]]
+ARRS = [None, [], ["a"], ["a", "b"], ["b", "a"], ["a", "b", "c"], ["c"], ["abc"], ["abd", "xyz"], ["martha"], ["marhta", "jones"], ["a", "a"], ["a", "a", "b"], ["kitten", "c"],
+        [""], ["", "a"]]  # audit c16: the empty string as an array element
 COORDS = [(0.0, 0.0), (0.0, 180.0), (90.0, 0.0), (-90.0, 0.0), (90.0, 123.0), (51.5, -0.12), (48.85, 2.35), (29.7517, -95.4054), (51.5001, -0.12), (0.0, 90.0), (0.0, -180.0), (-51.5, 179.88), (None, 0.0), (10.0, None), (None, None)]
 VECS = [None, [1.0, 0.0, 0.0], [0.0, 1.0, 0.0], [1.0, 1.0, 0.0], [2.0, 0.0, 0.0], [-1.0, 0.0, 0.0], [3.0, 4.0, 0.0], [4.0, 3.0, 0.0], [1.0, 2.0, 2.0], [0.5, 0.5, 0.5]]
-NUMS = [None, 0.0, 1.0, 1.1, 0.9, 10.0, 11.0, 9.0, 100.0, 110.0, 90.0, 125.0, -10.0, -11.0, -20.0, 2.5, 5.0, 7.5, 0.75, 1000000.0]
-INTS = [None, 0, 1, 5, 10, 11, 15, 20, 100, 90, 110, -10, -20, 2, 4]
+NUMS = [None, 0.0, 1.0, 1.1, 0.9, 10.0, 11.0, 9.0, 100.0, 110.0, 90.0, 125.0, -10.0, -11.0, -20.0, 2.5, 5.0, 7.5, 0.75, 1000000.0,
+        -0.0, 2.0 ** -20, 0.1234567, 0.1234568]  # audit c16: negative zero, values 2^-20 apart (threshold printed as 9.5367431640625e-07), 7-decimal neighbours
+INTS = [None, 0, 1, 5, 10, 11, 15, 20, 100, 90, 110, -10, -20, 2, 4,
+        2 ** 53, 2 ** 53 + 1, -(2 ** 62)]  # audit c16: integers that differ by 1 beyond the exact range of doubles
 PCS = [None, "AB1 2CD", "AB1 2CE", "AB1 3CD", "AB2 2CD", "AC1 2CD", "ab1 2cd", "XX", "", "B1 1AA", "AB12 3CD", "invalid", "AB1 2CD ", "AB1"]
 EMS = [None, "john@smith.com", "john@other.com", "jon@smith.com", "john.smith@company.com", "john.smyth@company.com", "rebecca@other.com", "nodomain", "", "@x.com"]
 
@@ -211,7 +292,7 @@ def side_values(scn: str, rng: random.Random, thorough: bool) -> list[dict]:
             s2 = rng.choice([None, "ab", "martha", "jones", v, v, "abc"])
             if scn == "strne" and s2 == "":
                 s2 = "ab"
-            recs.append({"s": v, "s2": s2, "fs": None if v is None or s2 is None else f"{v} {s2}", **({"a": rng.choice(ARRS)} if scn == "strne" else {})})
+            recs.append({"s": v, "s2": s2, "fs": None if v is None or s2 is None else f"{v} {s2}", **({"a": rng.choice(ARRS)} if scn == "strne" else {}), "sur name": s2})
     elif scn == "num":
         n = max(len(NUMS), len(INTS)) + (40 if thorough else 2)
         for i in range(n):
@@ -221,12 +302,14 @@ def side_values(scn: str, rng: random.Random, thorough: bool) -> list[dict]:
         for i, d in enumerate(ds):
             ok = d is not None and d not in BAD_DATES
             tm = TIMES[i % len(TIMES)]
-            recs.append({"ds": d, "dd": d if ok else None, "df": (dt.date.fromisoformat(d).strftime("%d/%m/%Y") if ok else d), "ts": (f"{d}T{tm}Z" if ok else d), "tt": (f"{d} {tm}" if ok else None)})
+            recs.append({"ds": d, "dd": d if ok else None, "df": (dt.date.fromisoformat(d).strftime("%d/%m/%Y") if ok else d), "ts": (f"{d}T{tm}Z" if ok else d), "tt": (f"{d} {tm}" if ok else None),
+                         "tf": (dmy(dt.date.fromisoformat(d)) + " " + tm if ok else d)})
         # timestamps exactly one averaged month / year apart (2629800 s, 31557600 s)
         base = dt.datetime(2000, 1, 1, 0, 0, 0)
         for delta in (2629800, 2629801, 31557600, 31557599, 5400, 5401):
             t = base + dt.timedelta(seconds=delta)
-            recs.append({"ds": t.date().isoformat(), "dd": t.date().isoformat(), "df": t.date().strftime("%d/%m/%Y"), "ts": t.strftime("%Y-%m-%dT%H:%M:%SZ"), "tt": t.strftime("%Y-%m-%d %H:%M:%S")})
+            recs.append({"ds": t.date().isoformat(), "dd": t.date().isoformat(), "df": t.date().strftime("%d/%m/%Y"), "ts": t.strftime("%Y-%m-%dT%H:%M:%SZ"), "tt": t.strftime("%Y-%m-%d %H:%M:%S"),
+                         "tf": dmy(t.date()) + " " + t.strftime("%H:%M:%S")})
     elif scn == "arr":
         for a in ARRS + [[rng.choice(["a", "b", "c", "abc", "abd"]) for _ in range(rng.randint(1, 3))] for _ in range(20 if thorough else 2)]:
             recs.append({"a": a})
@@ -234,7 +317,7 @@ def side_values(scn: str, rng: random.Random, thorough: bool) -> list[dict]:
         cs = COORDS + [(round(rng.uniform(-90, 90), 4), round(rng.uniform(-180, 180), 4)) for _ in range(70 if thorough else 10)]
         cs += antipodal_pairs(rng, 8 if not thorough else 30)
         for la, lo in cs:
-            recs.append({"lat": la, "lng": lo})
+            recs.append({"lat": la, "lng": lo, "ll": None if la is None and lo is None else [la, lo], "la": None if la is None and lo is None else [la, lo]})
     elif scn == "cos":
         for v in VECS + [[float(rng.randint(-3, 3)) or 1.0, float(rng.randint(-3, 3)), float(rng.randint(0, 3))] for _ in range(6 if thorough else 2)]:
             recs.append({"e": v})
@@ -244,6 +327,10 @@ def side_values(scn: str, rng: random.Random, thorough: bool) -> list[dict]:
             la, lo = COORDS[i % 10]
             recs.append({"pc": PCS[i % len(PCS)], "em": EMS[i % len(EMS)], "lat": la, "lng": lo})
     return recs
+
+
+def dmy(d: dt.date) -> str:
+    return f"{d.day:02d}/{d.month:02d}/{d.year:04d}"
 
 
 def make_pairs(recs):
@@ -258,12 +345,14 @@ def eval_real(task: dict) -> dict:
 
     from harness import impl
 
+    if task.get("tag") == "linker":
+        return eval_linker(task)
     eng = task["engine"]
     api = impl.make_api(eng, threads=2)
     cols = task["cols"]
     tname = "c16_pairs"
     types = SQLTYPE[eng]
-    ddl = ", ".join(f"{c}_{sd} {types[COLTYPE[c]]}" for c in cols for sd in ("l", "r"))
+    ddl = ", ".join(f'"{c}_{sd}" {types[COLTYPE[c]]}' for c in cols for sd in ("l", "r"))
     api._execute_sql_against_backend(f"CREATE TABLE {tname} (rid INTEGER, {ddl})")
     pairs = task["pairs"]
     for i0 in range(0, len(pairs), 400):
@@ -274,21 +363,41 @@ def eval_real(task: dict) -> dict:
     if eng == "sqlite":
         api.con.commit()
     exprs, errors = [], {}
+    fresh_sql = {}
     for li, spec in enumerate(task["levels"]):
         try:
             cond = build_level(clean(spec), eng).get_comparison_level(eng).sql_condition
             exprs.append((f"l{li}", "TRUE" if cond == "ELSE" else cond))
+            fresh_sql[f"l{li}"] = exprs[-1][1]
         except Exception as e:  # noqa: BLE001
             errors[f"l{li}"] = creation_error(e)
     mock = ColumnInfoSettings(bayes_factor_column_prefix="bm_", term_frequency_adjustment_column_prefix="tf_", comparison_vector_value_column_prefix="cv_", unique_id_column_name="unique_id",
                               _source_dataset_column_name="dataset", _source_dataset_column_name_is_required=False, sql_dialect=eng)
+
+    def case_sql(comp):
+        comp.column_info_settings = mock
+        return comp._case_statement.rsplit(" as ", 1)[0]
+
     for ci, spec in enumerate(task["comparisons"]):
         try:
-            comp = tlevels.build_comparison(spec, eng).get_comparison(eng)
-            comp.column_info_settings = mock
-            exprs.append((f"g{ci}", comp._case_statement.rsplit(" as ", 1)[0]))
+            exprs.append((f"g{ci}", case_sql(tlevels.build_comparison(spec, eng).get_comparison(eng))))
+            fresh_sql[f"g{ci}"] = exprs[-1][1]
         except Exception as e:  # noqa: BLE001
             errors[f"g{ci}"] = creation_error(e)
+    # ---- re-presentations of the SAME creators (object reuse, other dialects first, failed calls first, dict / JSON form): the SQL they
+    # yield must be the SQL of the fresh creator; when it is not, the differing SQL is evaluated as well and judged by the oracle
+    variants = {}
+    for name, label, sql in reuse_variants(task, eng, case_sql):
+        if name not in fresh_sql:
+            continue
+        if isinstance(sql, dict):
+            variants.setdefault(name, []).append({"label": label, "error": sql})
+        elif sql == fresh_sql[name]:
+            variants.setdefault(name, []).append({"label": label, "same": True})
+        else:
+            vn = f"{name}v{len(variants.get(name, []))}"
+            exprs.append((vn, sql))
+            variants.setdefault(name, []).append({"label": label, "same": False, "name": vn, "sql": sql[:600]})
 
     def run(sub):
         pipe = CTEPipeline()
@@ -318,7 +427,229 @@ def eval_real(task: dict) -> dict:
             norm[n] = [None if v is None else bool(v) for v in vals]
         else:
             norm[n] = [None if v is None else int(v) for v in vals]
-    return {"values": norm, "errors": errors, "sql": {n: e[:400] for n, e in exprs[:400]}}
+    return {"values": norm, "errors": errors, "sql": {n: e[:400] for n, e in exprs[:400]}, "variants": variants}
+
+
+def eval_linker(task: dict) -> dict:
+    """The comparisons of the task inside a real link_only Linker over two registered tables (given by NAME) holding the task's records:
+    gamma_* of predict() for every ordered pair of records; then the model saved to JSON and loaded into a second Linker on the same
+    database API (predict() again); then compare_two_records() on single-row tables for a few pairs."""
+    import logging
+
+    from splink import Linker, SettingsCreator
+
+    from harness import impl
+
+    logging.disable(logging.CRITICAL)
+    try:
+        return run_linker(task, task["comparisons"])
+    except core.HarnessError:
+        raise
+    except Exception:  # noqa: BLE001  one comparison that cannot be used fails the whole Linker: localise it, keep the others
+        out = {"values": {}, "errors": {}, "sql": {}, "variants": {}}
+        for ci, spec in enumerate(task["comparisons"]):
+            try:
+                one = run_linker(task, [spec])
+                out["values"][f"g{ci}"] = one["values"]["g0"]
+                out["variants"][f"g{ci}"] = one["variants"].get("g0", [])
+            except core.HarnessError:
+                raise
+            except Exception as e:  # noqa: BLE001
+                out["errors"][f"g{ci}"] = {"kind": "execution", "type": type(e).__name__, "text": "inside a Linker (predict()): " + str(e)[:300]}
+        return out
+
+
+def run_linker(task: dict, comparison_specs: list) -> dict:
+    from splink import Linker, SettingsCreator
+
+    from harness import impl
+
+    eng, cols, recs = task["engine"], task["cols"], task["records"]
+    n = len(recs)
+    api = impl.make_api(eng, threads=2)
+    types = SQLTYPE[eng]
+    ddl = ", ".join(f'"{c}" {types[COLTYPE[c]]}' for c in cols)
+    for t in ("c16_a", "c16_b"):
+        api._execute_sql_against_backend(f"CREATE TABLE {t} (unique_id INTEGER, {ddl})")
+        rows = ["(" + ", ".join([str(i)] + [sql_lit(r[c], COLTYPE[c]) for c in cols]) + ")" for i, r in enumerate(recs)]
+        api._execute_sql_against_backend(f"INSERT INTO {t} VALUES " + ", ".join(rows))
+    if eng == "sqlite":
+        api.con.commit()
+    creators = [tlevels.build_comparison(spec, eng) for spec in comparison_specs]
+    settings = SettingsCreator(link_type="link_only", comparisons=creators, blocking_rules_to_generate_predictions=["1=1"])
+    linker = Linker(["c16_a", "c16_b"], settings, db_api=api, set_up_basic_logging=False)
+    outs = [c.output_column_name for c in linker._settings_obj.comparisons]
+
+    def gammas(records):
+        vals = {f"g{ci}": [None] * (n * n) for ci in range(len(outs))}
+        seen = 0
+        for r in records:
+            k = r["unique_id_l"] * n + r["unique_id_r"]
+            seen += 1
+            for ci, o in enumerate(outs):
+                vals[f"g{ci}"][k] = None if r["gamma_" + o] is None else int(r["gamma_" + o])
+        if seen != n * n:
+            raise core.HarnessError(f"predict() over 1=1 returned {seen} rows for {n}x{n} records")
+        return vals
+
+    values = gammas(linker.inference.predict().as_record_dict())
+    variants = {}
+
+    def add(label, vals):
+        for name, v in vals.items():
+            variants.setdefault(name, []).append({"label": label, "same": True} if v == values[name] else {"label": label, "same": False, "values": v})
+
+    label = "model saved to JSON, loaded into a second Linker on the same database API: predict()"
+    try:
+        model = json.loads(json.dumps(linker.misc.save_model_to_json()))
+        linker2 = Linker(["c16_a", "c16_b"], model, db_api=api, set_up_basic_logging=False)
+        add(label, gammas(linker2.inference.predict().as_record_dict()))
+    except core.HarnessError:
+        raise
+    except Exception as e:  # noqa: BLE001
+        for name in values:
+            variants.setdefault(name, []).append({"label": label, "error": {"type": type(e).__name__, "text": str(e)[-300:]}})
+    label = "compare_two_records() on single-row tables"
+    try:
+        vals = {name: list(v) for name, v in values.items()}
+        for i, j in task["probe_pairs"]:
+            for t, src, k in (("c16_one_l", "c16_a", i), ("c16_one_r", "c16_b", j)):
+                api._execute_sql_against_backend(f"DROP TABLE IF EXISTS {t}")
+                api._execute_sql_against_backend(f"CREATE TABLE {t} AS SELECT * FROM {src} WHERE unique_id = {k}")
+            if eng == "sqlite":
+                api.con.commit()
+            (r,) = linker.inference.compare_two_records("c16_one_l", "c16_one_r").as_record_dict()
+            for ci, o in enumerate(outs):
+                vals[f"g{ci}"][i * n + j] = None if r["gamma_" + o] is None else int(r["gamma_" + o])
+        add(label, vals)
+    except Exception as e:  # noqa: BLE001
+        for name in values:
+            variants.setdefault(name, []).append({"label": label, "error": {"type": type(e).__name__, "text": str(e)[-300:]}})
+    if all(COLTYPE[c] in ("str", "float", "int") for c in cols):  # records as plain dicts (column types are inferred: scalar columns only)
+        label = "compare_two_records() on dict records"
+        try:
+            vals = {name: list(v) for name, v in values.items()}
+            for i, j in task["probe_pairs"]:
+                if any(recs[k][c] is None for k in (i, j) for c in cols):
+                    continue  # a None in a one-row frame has no column type
+                (r,) = linker.inference.compare_two_records({"unique_id": i, **{c: recs[i][c] for c in cols}}, {"unique_id": j, **{c: recs[j][c] for c in cols}}).as_record_dict()
+                for ci, o in enumerate(outs):
+                    vals[f"g{ci}"][i * n + j] = None if r["gamma_" + o] is None else int(r["gamma_" + o])
+            add(label, vals)
+        except Exception as e:  # noqa: BLE001
+            for name in values:
+                variants.setdefault(name, []).append({"label": label, "error": {"type": type(e).__name__, "text": str(e)[-300:]}})
+    return {"values": values, "errors": {}, "sql": {}, "variants": variants}
+
+
+LINKER_COLS = {"duckdb": ["s", "s2", "fs", "sur name", "a", "ds", "dd", "df", "ts", "tt", "tf", "lat", "lng", "ll", "e", "pc", "em"], "sqlite": ["s", "s2", "fs", "sur name", "lat", "lng"]}
+
+
+def make_linker_tasks(ctx, specs):
+    """One link_only Linker per engine: records drawn from the scenario grids (one all-NULL record), one comparison per output column name
+    drawn from the argument grid (the creators derive the name from their column)."""
+    n = 24 if ctx.thorough else 14
+    by_scn = {scn: side_values(scn, ctx.rng, False) for scn in ("str", "date", "arr", "km", "cos", "misc")}
+    recs = []
+    for i in range(n):
+        r = {}
+        for scn in ("misc", "str", "date", "arr", "km", "cos"):
+            r.update(by_scn[scn][0] if i == 0 and scn != "km" else ctx.rng.choice(by_scn[scn]))
+        if i == 0:
+            r.update({"lat": None, "lng": None, "ll": None, "la": None})
+        r["fs"] = None if r["s"] is None or r["s2"] is None else f"{r['s']} {r['s2']}"
+        recs.append(r)
+    tasks = []
+    for eng in ("duckdb", "sqlite"):
+        groups = {}
+        for sp in specs:
+            if defective(sp) or sp["creator"] == "JaccardAtThresholds" or (eng == "sqlite" and not sqlite_can(sp)):
+                continue
+            if comparison_scenario(sp) is None or not all(c in LINKER_COLS[eng] for c in comparison_cols(sp)):
+                continue
+            groups.setdefault(tlevels.build_comparison(sp, eng).get_comparison(eng).output_column_name, []).append(sp)
+        chosen = [ctx.rng.choice(groups[g]) for g in sorted(groups)]
+        # a second Linker whose comparisons are all on TRANSFORMED columns (ColumnExpression with operations / SQL expression as the column)
+        transformed = [ctx.rng.choice(t) for t in ([sp for sp in groups[g] if on_transformed_column(sp)] for g in sorted(groups)) if t]
+        for comps in (chosen, transformed):
+            probes = [(ctx.rng.randrange(n), ctx.rng.randrange(n)) for _ in range(5)] + [(0, 1), (2, 2)]
+            tasks.append({"scenario": "linker", "engine": eng, "cols": LINKER_COLS[eng], "levels": [], "comparisons": comps, "records": recs, "pairs": make_pairs(recs), "probe_pairs": probes, "tag": "linker"})
+    return tasks
+
+
+def on_transformed_column(spec) -> bool:
+    return any(isinstance(v, list) or v in EXPR_BASE for k, v in spec["kw"].items() if k.endswith("col_name") or k in ("lat_col", "long_col"))
+
+
+def comparison_cols(spec) -> set:
+    cols = set()
+    for k, v in spec["kw"].items():
+        if k.endswith("col_name") or k in ("lat_col", "long_col"):
+            cols.update(phys_cols(v if isinstance(v, str) else v[0]))
+    if spec["creator"] == "CustomComparison":
+        cols.update({"s", "s2"})
+    return cols
+
+
+OTHER_DIALECTS = ("spark", "postgres", "athena", "sqlite", "duckdb")
+
+
+def reuse_variants(task, eng, case_sql):
+    """-> (name, label, sql | {'error'...}) for every level / comparison of the task, produced from creator objects that are REUSED:
+    - levels: one creator per spec, all creators of the task sharing their ColumnExpression objects; every creator is first asked for
+      every OTHER dialect (some of those calls fail: unsupported level / function), then twice for this engine;
+    - comparisons: one creator; create_comparison_levels() and get_comparison() for another dialect first, then get_comparison()
+      twice for this engine; then the dict form of the result (as_dict() -> CustomComparison(**dict), the path of a saved model)."""
+    from splink.internals import comparison_library as clib
+
+    out = []
+    cache = {}
+    creators = []
+    for li, spec in enumerate(task["levels"]):
+        try:
+            creators.append((li, build_level(clean(spec), eng, ce_cache=cache)))
+        except Exception:  # noqa: BLE001  (the fresh path reports creation errors)
+            pass
+    for d in OTHER_DIALECTS:
+        if d == eng:
+            continue
+        for _, c in creators:
+            try:
+                c.get_comparison_level(d)
+            except Exception:  # noqa: BLE001  a level the other dialect does not support: the failed call must leave the creator usable
+                pass
+    for li, c in creators:
+        try:
+            c.get_comparison_level(eng)
+            cond = c.get_comparison_level(eng).sql_condition
+            out.append((f"l{li}", "level creator reused (shared ColumnExpressions, other dialects first, second call)", "TRUE" if cond == "ELSE" else cond))
+        except Exception as e:  # noqa: BLE001
+            out.append((f"l{li}", "level creator reused (shared ColumnExpressions, other dialects first, second call)", creation_error(e)))
+    for ci, spec in enumerate(task["comparisons"]):
+        try:
+            cc = tlevels.build_comparison(spec, eng)
+            if "__iter" in json.dumps(spec):
+                raise LookupError  # a one-shot iterator argument cannot be reused by construction
+            cc.create_comparison_levels()
+            for d in OTHER_DIALECTS[:2]:
+                try:
+                    cc.get_comparison(d)
+                except Exception:  # noqa: BLE001
+                    pass
+            cc.get_comparison(eng)
+            comp = cc.get_comparison(eng)
+            out.append((f"g{ci}", "comparison creator reused (other dialects first, second call)", case_sql(comp)))
+        except LookupError:
+            continue
+        except Exception as e:  # noqa: BLE001
+            out.append((f"g{ci}", "comparison creator reused (other dialects first, second call)", creation_error(e)))
+            continue
+        try:
+            back = clib.CustomComparison(**json.loads(json.dumps(comp.as_dict()))).get_comparison(eng)
+            out.append((f"g{ci}", "comparison from its dict form (as_dict -> JSON -> CustomComparison)", case_sql(back)))
+        except Exception as e:  # noqa: BLE001
+            out.append((f"g{ci}", "comparison from its dict form (as_dict -> JSON -> CustomComparison)", creation_error(e)))
+    return out
 
 
 def creation_error(e):
@@ -373,7 +704,10 @@ def parse_dt(s, fmt):
 def col_value(ct: dict, pair: dict, side: int):
     if ct["base"].startswith("__custom__"):
         return pair.get(ct["base"], [None, None])[0]
-    v = base_value(ct["base"], pair[ct["base"]][side])
+    if ct["base"] in EXPR_BASE:
+        v = EXPR_BASE[ct["base"]][1](pair, side)
+    else:
+        v = base_value(ct["base"], pair[ct["base"]][side])
     for op in ct["ops"]:
         k = op["op"]
         if v is None:
@@ -393,6 +727,8 @@ def col_value(ct: dict, pair: dict, side: int):
             v = parse_dt(v, op["fmt"] or "%Y-%m-%dT%H:%M:%SZ")
         elif k == "castToString":
             v = (EPOCH + dt.timedelta(seconds=v)).date().isoformat()
+        elif k == "arrayElement":
+            v = (v[0] if op["first"] else v[-1]) if v else None  # an empty list has no first / last element: NULL
         else:
             raise core.HarnessError(f"operation {k} not handled by the harness")
     return v
@@ -717,17 +1053,26 @@ def make_tasks(ctx, specs):
     tasks = []
     for scn, engines in SCN_ENGINES.items():
         recs = side_values(scn, ctx.rng, ctx.thorough)
+        for r in recs:  # evidence: boundary data values present in the grids (records; every record meets every record)
+            for label, hit in (("string with an apostrophe", r.get("s") == "o'brien"), ("date before the Unix epoch", isinstance(r.get("ds"), str) and r["ds"][:2] in ("18", "19") and r["ds"] < "1970"),
+                               ("leap day", r.get("ds") == "2000-02-29"), ("negative zero", isinstance(r.get("x"), float) and math.copysign(1, r["x"]) < 0 and r["x"] == 0),
+                               ("integer beyond 2^53", isinstance(r.get("xi"), int) and abs(r["xi"]) >= 2 ** 53), ("empty string as an array element", scn == "arr" and isinstance(r.get("a"), list) and "" in r["a"]),
+                               ("latitude / longitude inside a struct and an array", r.get("ll") is not None)):
+                if hit:
+                    ctx.count("data_value", f"{scn}: {label}")
         pairs = make_pairs(recs)
         comps = [s for s in specs if comparison_scenario(s) == scn and not defective(s)]
         for eng in engines:
             lv = [s for s in level_specs(scn) if eng in engines_of(s, engines)]
             cs = [s for s in comps if eng == "duckdb" or sqlite_can(s)]
-            tasks.append({"scenario": scn, "engine": eng, "cols": SCN_COLS[scn], "levels": lv, "comparisons": cs, "pairs": pairs, "tag": "grid"})
+            tasks.append({"scenario": scn, "engine": eng, "cols": [c for c in SCN_COLS[scn] if COLTYPE[c] in SQLTYPE[eng]], "levels": lv, "comparisons": cs, "pairs": pairs, "tag": "grid"})
     return tasks
 
 
 def sqlite_can(spec):
     """Comparisons whose every level the library supports on SQLite (no arrays, regex, jaccard, date parsing)."""
+    if any(COLTYPE[c] not in SQLTYPE["sqlite"] for v in spec["kw"].values() if isinstance(v, str) and v in EXPR_BASE for c in phys_cols(v)):
+        return False  # struct / array references: no such column types on SQLite
     return spec["creator"] in ("ExactMatch", "LevenshteinAtThresholds", "DamerauLevenshteinAtThresholds", "JaroAtThresholds", "JaroWinklerAtThresholds", "DistanceFunctionAtThresholds",
                                "DistanceInKMAtThresholds", "ForenameSurnameComparison", "CustomComparison") or (spec["creator"] == "NameComparison" and "dmeta_col_name" not in spec["kw"])
 
@@ -762,6 +1107,113 @@ def classify(kinds):
     return "other"
 
 
+def spec_features(spec) -> set:
+    """Argument / column FORMS a level or comparison spec exercises (evidence counters `arg_form`)."""
+    out = set()
+
+    def col(v):
+        base = v if isinstance(v, str) else v[0]
+        ops = [] if isinstance(v, str) else v[1:]
+        if base in EXPR_BASE:
+            out.add("column: struct field / array element reference" if base[:2] in ("ll", "la") else "column: SQL expression as the column")
+        if " " in base and base not in EXPR_BASE:
+            out.add("column: name that needs quoting")
+        if len(ops) > 1:
+            out.add("column: chained operations")
+        for o in ops:
+            k = o if isinstance(o, str) else o[0]
+            if k == "regex" and len(o) > 2 and o[2]:
+                out.add("column: regex capture group > 0")
+            if k in ("elem", "cast_to_string", "try_parse_date", "try_parse_timestamp"):
+                out.add("column: " + {"elem": "first / last array element", "cast_to_string": "cast_to_string"}.get(k, "explicit try_parse operation"))
+            if k == "nullif" and "'" in o[1]:
+                out.add("string argument with an apostrophe")
+
+    def num(v):
+        if isinstance(v, bool) or not isinstance(v, (int, float)):
+            return
+        r = repr(v)
+        if "e" in r:
+            out.add("threshold: printed in exponent notation")
+        elif "." in r and len(r.split(".")[1]) > 6:
+            out.add("threshold: more than 6 decimals")
+        if v == 0:
+            out.add("threshold: 0")
+
+    def walk(sp):
+        if isinstance(sp, dict) and "sql_condition" in sp:
+            if sp.get("base_dialect_str"):
+                out.add("custom level: base_dialect_str (translated)")
+            if sp.get("__raw"):
+                out.add("composition: plain dict member")
+            return
+        if isinstance(sp, dict):  # comparison spec
+            for k, v in sp["kw"].items():
+                if k.endswith("col_name") or k in ("lat_col", "long_col"):
+                    col(v)
+                elif isinstance(v, dict):
+                    out.add("thresholds: given as a " + ("tuple" if "__tuple" in v else "one-shot iterator"))
+                elif v == []:
+                    out.add("thresholds: empty list")
+                elif isinstance(v, list):
+                    [num(x) for x in v]
+                    if len(set(map(str, v))) < len(v):
+                        out.add("thresholds: repeated value")
+                else:
+                    num(v)
+            if sp["creator"] == "CustomComparison" and sp["kw"]["levels"] == "dicts":
+                out.add("composition: plain dict member")
+            return
+        name, arg = sp
+        if name in ("And", "Or"):
+            [walk(x) for x in arg]
+        elif name == "Not":
+            walk(arg)
+        else:
+            for k, v in arg.items():
+                if k in ("col_name", "col_name_1", "col_name_2", "lat_col", "long_col"):
+                    col(v)
+                elif k == "literal_value":
+                    if not isinstance(v, str):
+                        out.add("literal: given as a number")
+                    elif v == "":
+                        out.add("literal: empty string")
+                    elif "'" in v:
+                        out.add("string argument with an apostrophe")
+                    if arg.get("literal_datatype") == "date":
+                        out.add("literal: date")
+                elif k.endswith("threshold"):
+                    num(v)
+                    if name in ("LevenshteinLevel", "DamerauLevenshteinLevel") and isinstance(v, float):
+                        out.add("threshold: fractional on an integer distance")
+                elif k == "datetime_format" and v and name == "AbsoluteTimeDifferenceLevel":
+                    out.add("timestamp format given")
+
+    walk(spec)
+    return out
+
+
+def variant_runs(ctx, res, name, on_error):
+    """Value lists to judge besides the fresh creator's: the re-presentations (reuse / dict form / linker paths) whose SQL or values DIFFER
+    from the fresh ones.  Identical ones are only counted (same SQL => same values)."""
+    runs = []
+    for v in res.get("variants", {}).get(name, []):
+        if "error" in v:
+            ctx.count("variant", v["label"] + ": RAISED")
+            on_error(v["label"], v["error"])
+        elif v["same"]:
+            ctx.count("variant", v["label"] + ": identical")
+        else:
+            ctx.count("variant", v["label"] + ": DIFFERENT, judged by the oracle")
+            if "values" in v:
+                runs.append((v["values"], v["label"]))
+            elif v["name"] in res["values"]:
+                runs.append((res["values"][v["name"]], v["label"]))
+            else:
+                on_error(v["label"], res["errors"].get(v["name"], {"type": "?", "text": "no values"}))
+    return runs
+
+
 def compare(ctx, tasks, drv):
     """-> list of problems (task, name, spec, pair index, what, concrete?, match_info)."""
     problems = []
@@ -772,6 +1224,10 @@ def compare(ctx, tasks, drv):
             problems.append((task, None, None, None, f"real code raised {res['__error__']}: {res['text'][:300]}", True, {"failure": "real code raised", "engine": eng, "family": scn}))
             continue
         lterms, cterms = terms_of(task)
+        if task.get("tag") == "linker":
+            ctx.count("linker_family", f"{eng}: Linkers (predict + JSON model + compare_two_records)")
+            ctx.count("linker_family", f"{eng}: comparisons inside the Linker", len(task["comparisons"]))
+            ctx.count("linker_family", f"{eng}: record pairs through predict()", len(task["pairs"]))
         mres = drv.pbatch(model_requests(task, lterms, cterms))
         mrows = []
         for m in mres:
@@ -785,6 +1241,8 @@ def compare(ctx, tasks, drv):
             kinds = term_kinds(term)
             fam = classify(kinds)
             ctx.count("level_kind", term["k"], len(pairs))
+            for f in spec_features(spec):
+                ctx.count("arg_form", f, len(pairs))
             if name in res["errors"]:
                 er = res["errors"][name]
                 if er["kind"] == "rejected":
@@ -792,35 +1250,42 @@ def compare(ctx, tasks, drv):
                     continue
                 problems.append((task, name, spec, None, f"real code raised {er['type']} for level {json.dumps(clean(spec))[:200]} on {eng}: {er['text'][-250:]}", True, {"failure": "real code raised", "engine": eng, "family": fam}))
                 continue
-            real = res["values"][name]
             tri = kinds <= EXACT_KINDS | {"and", "or", "not"}
-            for pi, p in enumerate(pairs):
-                canon = (scn, eng, json.dumps(clean(spec), sort_keys=True), json.dumps(task["pairs"][pi], sort_keys=True))
-                if term["k"] in ("arrayIntersect", "arraySubset", "pairwise") and (p[term["c"]["base"]][0] is None or p[term["c"]["base"]][1] is None):
-                    # outside the quantifier (non-null levels are quantified over non-NULL values; the null level comes first in every
-                    # library comparison): DuckDB's list_intersect(x, NULL) is [] rather than NULL
-                    ctx.count("excluded", "array level on a NULL array (outside the quantifier; covered through whole comparisons)")
-                    continue
-                try:
-                    o = oracle(term, p)
-                except Near:
-                    ctx.count("excluded", "pair within rounding of the threshold / behaviour undocumented (empty strings for Jaro, repeated array elements, zero vector)")
-                    continue
-                r, m = real[pi], mrows[pi]["sat"][li]
-                ctx.case(canon, o is True or (o is False and term["k"] not in ("null",)), sample={"engine": eng, "level": clean(spec), "pair": task["pairs"][pi], "real": r, "oracle": o, "lean": m} if (pi * 7 + li) % 997 == 0 else None)
-                ctx.count("oracle_value", {True: "TRUE", False: "FALSE", None: "NULL"}[o])
-                if (r is True) != (o is True) or (tri and r != o):
-                    problems.append((task, name, spec, pi, f"level {json.dumps(clean(spec))[:160]} on {eng}: real SQL gives {r}, documented predicate gives {o} for pair {json.dumps(task['pairs'][pi])[:200]}",
-                                     True, {"failure": "level differs from documented predicate", "engine": eng, "family": fam}))
-                    continue
-                if (r is True) != (m is True) or (tri and r != m):
-                    problems.append((task, name, spec, pi, f"level {json.dumps(clean(spec))[:160]} on {eng}: real SQL gives {r}, Lean sat gives {m} for pair {json.dumps(task['pairs'][pi])[:200]}", False, {}))
-                    continue
-                ctx.traces_validated += 1
+
+            def lv_error(label, er, name=name, spec=spec, fam=fam):
+                problems.append((task, name, spec, None, f"real code raised {er.get('type')} for level {json.dumps(clean(spec))[:200]} on {eng} [{label}]: {str(er.get('text'))[-250:]}", True,
+                                 {"failure": "real code raised", "engine": eng, "family": fam, "variant": label}))
+
+            for real, vlabel in [(res["values"][name], None)] + variant_runs(ctx, res, name, lv_error):
+                for pi, p in enumerate(pairs):
+                    canon = (scn, eng, json.dumps(clean(spec), sort_keys=True), json.dumps(task["pairs"][pi], sort_keys=True), vlabel)
+                    if term["k"] in ("arrayIntersect", "arraySubset", "pairwise") and (p[term["c"]["base"]][0] is None or p[term["c"]["base"]][1] is None):
+                        # outside the quantifier (non-null levels are quantified over non-NULL values; the null level comes first in every
+                        # library comparison): DuckDB's list_intersect(x, NULL) is [] rather than NULL
+                        ctx.count("excluded", "array level on a NULL array (outside the quantifier; covered through whole comparisons)")
+                        continue
+                    try:
+                        o = oracle(term, p)
+                    except Near:
+                        ctx.count("excluded", "pair within rounding of the threshold / behaviour undocumented (empty strings for Jaro, repeated array elements, zero vector)")
+                        continue
+                    r, m = real[pi], mrows[pi]["sat"][li]
+                    ctx.case(canon, o is True or (o is False and term["k"] not in ("null",)), sample={"engine": eng, "level": clean(spec), "pair": task["pairs"][pi], "real": r, "oracle": o, "lean": m} if (pi * 7 + li) % 997 == 0 else None)
+                    ctx.count("oracle_value", {True: "TRUE", False: "FALSE", None: "NULL"}[o])
+                    if (r is True) != (o is True) or (tri and r != o):
+                        problems.append((task, name, spec, pi, f"level {json.dumps(clean(spec))[:160]} on {eng}{' [' + vlabel + ']' if vlabel else ''}: real SQL gives {r}, documented predicate gives {o} for pair {json.dumps(task['pairs'][pi])[:200]}",
+                                         True, {"failure": "level differs from documented predicate", "engine": eng, "family": fam, **({"variant": vlabel} if vlabel else {})}))
+                        continue
+                    if (r is True) != (m is True) or (tri and r != m):
+                        problems.append((task, name, spec, pi, f"level {json.dumps(clean(spec))[:160]} on {eng}: real SQL gives {r}, Lean sat gives {m} for pair {json.dumps(task['pairs'][pi])[:200]}", False, {}))
+                        continue
+                    ctx.traces_validated += 1
         for ci, (spec, terms) in enumerate(zip(task["comparisons"], cterms)):
             name = f"g{ci}"
             fam = classify(set().union(*[term_kinds(t) for t in terms]))
             ctx.count("comparison_creator", spec["creator"], len(pairs))
+            for f in spec_features(spec):
+                ctx.count("arg_form", f, len(pairs))
             if name in res["errors"]:
                 er = res["errors"][name]
                 if er["kind"] == "rejected":
@@ -829,30 +1294,36 @@ def compare(ctx, tasks, drv):
                 problems.append((task, name, spec, None, f"real code raised {er['type']} for comparison {spec['creator']} {json.dumps(spec['kw'])[:160]} on {eng}: {er['text'][-250:]}", True,
                                  {"failure": "real code raised", "engine": eng, "family": fam}))
                 continue
-            real = res["values"][name]
-            for pi, p in enumerate(pairs):
-                canon = (scn, eng, "cmp", json.dumps(spec, sort_keys=True), json.dumps(task["pairs"][pi], sort_keys=True))
-                try:
-                    o = oracle_gamma(documented_terms(spec, terms), p)
-                except Near:
-                    ctx.count("excluded", "comparison: a level's threshold within rounding / undocumented behaviour for this pair")
-                    continue
-                r, m = real[pi], mrows[pi]["gammas"][ci]
-                ctx.case(canon, o is not None and o >= 0, sample={"engine": eng, "comparison": spec, "pair": task["pairs"][pi], "real_gamma": r, "oracle": o, "lean": m} if (pi * 13 + ci) % 1499 == 0 else None)
-                ctx.count("gamma", o)
-                if r != o:
-                    problems.append((task, name, spec, pi, f"comparison {spec['creator']} {json.dumps(spec['kw'])[:160]} on {eng}: real gamma {r}, documented levels give {o} for pair {json.dumps(task['pairs'][pi])[:200]}",
-                                     True, {"failure": "gamma differs from documented levels", "engine": eng, "family": fam, "creator": spec["creator"]}))
-                    continue
-                if r != m:
-                    problems.append((task, name, spec, pi, f"comparison {spec['creator']} {json.dumps(spec['kw'])[:160]} on {eng}: real gamma {r}, Lean gammaOf {m} for pair {json.dumps(task['pairs'][pi])[:200]}", False, {}))
-                    continue
-                ctx.traces_validated += 1
+            def cmp_error(label, er, name=name, spec=spec, fam=fam):
+                problems.append((task, name, spec, None, f"real code raised {er.get('type')} for comparison {spec['creator']} {json.dumps(spec['kw'])[:160]} on {eng} [{label}]: {str(er.get('text'))[-250:]}", True,
+                                 {"failure": "real code raised", "engine": eng, "family": fam, "variant": label}))
+
+            for real, vlabel in [(res["values"][name], None)] + variant_runs(ctx, res, name, cmp_error):
+                for pi, p in enumerate(pairs):
+                    canon = (scn, eng, "cmp", json.dumps(spec, sort_keys=True), json.dumps(task["pairs"][pi], sort_keys=True), vlabel)
+                    try:
+                        o = oracle_gamma(documented_terms(spec, terms), p)
+                    except Near:
+                        ctx.count("excluded", "comparison: a level's threshold within rounding / undocumented behaviour for this pair")
+                        continue
+                    r, m = real[pi], mrows[pi]["gammas"][ci]
+                    ctx.case(canon, o is not None and o >= 0, sample={"engine": eng, "comparison": spec, "pair": task["pairs"][pi], "real_gamma": r, "oracle": o, "lean": m} if (pi * 13 + ci) % 1499 == 0 else None)
+                    ctx.count("gamma", o)
+                    if r != o:
+                        problems.append((task, name, spec, pi, f"comparison {spec['creator']} {json.dumps(spec['kw'])[:160]} on {eng}{' [' + vlabel + ']' if vlabel else ''}: real gamma {r}, documented levels give {o} for pair {json.dumps(task['pairs'][pi])[:200]}",
+                                         True, {"failure": "gamma differs from documented levels", "engine": eng, "family": fam, "creator": spec["creator"], **({"variant": vlabel} if vlabel else {})}))
+                        continue
+                    if r != m:
+                        problems.append((task, name, spec, pi, f"comparison {spec['creator']} {json.dumps(spec['kw'])[:160]} on {eng}: real gamma {r}, Lean gammaOf {m} for pair {json.dumps(task['pairs'][pi])[:200]}", False, {}))
+                        continue
+                    ctx.traces_validated += 1
     return problems
 
 
 def minimal_task(task, name, spec, pi):
     """The single (level | comparison, pair) case, re-runnable alone."""
+    if task.get("tag") == "linker":  # the whole linker run with this one comparison (the pair is named in the detail)
+        return dict(task, comparisons=[spec] if spec else task["comparisons"])
     t = {"scenario": task["scenario"], "engine": task["engine"], "cols": task["cols"], "levels": [], "comparisons": [], "pairs": [task["pairs"][pi]] if pi is not None else task["pairs"][:3], "tag": "replay"}
     if name and name.startswith("l"):
         t["levels"] = [spec]
@@ -892,6 +1363,14 @@ def metric_validation(ctx, drv):
     return bad
 
 
+def extractable(spec) -> bool:
+    try:
+        tlevels.extract(spec, "duckdb")
+        return True
+    except Exception:  # noqa: BLE001
+        return False
+
+
 def load_corpus():
     d = core.VERIF / "corpus" / PROP
     out = []
@@ -908,6 +1387,12 @@ def run(ctx: core.Ctx):
         "embeddings, postcodes/emails) x every level creator x argument grid (thresholds on and around constructible metric values) x {duckdb, sqlite where the library supports the level} x ALL ordered pairs of "
         "the scenario's value grid (NULL, empty string/array, equal values, one-edit neighbours, transpositions, values exactly k edits / t units / t seconds apart, invalid dates, antipodal/identical/pole coordinates, "
         "negative numbers and zeros, random fill-ins from VERIF_SEED); every library comparison of the grid is evaluated as its real CASE statement on the same pairs. "
+        "Argument forms (counters arg_form): SQL expressions / quoted names / struct fields / array elements as the column, chained operations, regex capture groups, cast / parse operations, "
+        "literals as numbers / dates / empty / with an apostrophe, thresholds with 7 decimals on either side of a constructible score, in exponent notation, fractional, 0, thresholds as tuple / iterator / [] / repeated, "
+        "CustomLevel with base_dialect_str, plain dicts inside And / Or / Not. Re-presentations (counters variant): every level and comparison creator REUSED (shared ColumnExpression objects, every other dialect asked first "
+        "- some of those calls fail -, second call) and every comparison rebuilt from its dict form must yield the SQL of the fresh creator (a differing SQL is evaluated and judged by the oracle). "
+        "Linker family (counters linker_family): per engine two link_only Linkers over two tables registered by NAME (one comparison per output column drawn from the grid; one Linker with transformed columns only): "
+        "gamma_* of predict() on all ordered record pairs vs oracle and Lean, the model saved to JSON and loaded into a second Linker on the same database API, compare_two_records() on single-row tables and on dict records. "
         "evaluation = one (level or comparison, pair, engine); non-trivial = the documented predicate is TRUE, or FALSE for a non-null level (gamma >= 0 for comparisons); distinct = hash of (scenario, engine, creator+args, pair)."
     )
     ctx.assumptions = [
@@ -924,19 +1409,19 @@ def run(ctx: core.Ctx):
         ctx.lean.ok = False
         ctx.lean.problems += ["T-levels: " + e for e in errs]
     drv = core.Driver()
-    specs = tlevels.comparison_specs()
+    specs = [sp for sp in tlevels.comparison_specs() if extractable(sp)]  # a spec whose creator cannot be built / mapped is reported above (T-levels) and has no term to compare with
     mv_bad = metric_validation(ctx, drv)
     if ctx.replay:
         tasks = [json.loads(open(ctx.replay).read())["replay"]["case"]]
     else:
-        tasks = load_corpus() + make_tasks(ctx, specs)
+        tasks = load_corpus() + make_tasks(ctx, specs) + make_linker_tasks(ctx, specs)
     problems = compare(ctx, tasks, drv)
     if (not ctx.lean.ok or mv_bad or any(not p[5] for p in problems)) and not ctx.replay:
         ctx.notes.append("proof, extraction or correspondence broke: ran the widened failing-input search (second value grid from another seed, thorough fill-ins)")
         ctx2_rng, ctx.rng = ctx.rng, random.Random(ctx.seed + 7919)
         th, ctx.thorough = ctx.thorough, True
         try:
-            problems += compare(ctx, make_tasks(ctx, specs), drv)
+            problems += compare(ctx, make_tasks(ctx, specs) + make_linker_tasks(ctx, specs), drv)
         finally:
             ctx.rng, ctx.thorough = ctx2_rng, th
     concrete = [p for p in problems if p[5]]
